@@ -1031,7 +1031,8 @@ Proof.
   { destruct (col_first r d) as [v|] eqn:E; [|congruence]. intros _. exists v. split; [reflexivity|].
     apply min_max_bounds. eapply col_first_value; eauto. }
   apply Hsome. intros Hnone.
-  unfold segment_has_live_nulls in Hn. unfold has_f171 in Hf. cbn [existsb] in Hf. rewrite orb_false_r in Hf.
+  unfold segment_has_live_nulls, segment_has_live_nulls_gen, scan_live_nulls in Hn.
+  unfold has_f171, has_f171_gen, f171_reader_gen in Hf. cbn [existsb] in Hf. rewrite orb_false_r in Hf.
   destruct (cardinality_of (r_vals r)) eqn:Ec.
   - (* Full: every document has exactly one value *)
     unfold cardinality_of in Ec.
@@ -1047,18 +1048,19 @@ Proof.
     destruct (has_deletes r); cbn [negb] in Hn; [|discriminate].
     assert (existsb (fun d => is_none (col_first r d)) (doc_ids_alive r) = true); [|congruence].
     apply existsb_exists. exists d. split; [exact Hd|]. now rewrite Hnone.
-  - (* Multivalued: excluded class *)
-    assert (existsb (fun d => is_none (col_first r d)) (doc_ids_alive r) = true); [|congruence].
-    apply existsb_exists. exists d. split; [exact Hd|]. now rewrite Hnone.
+  - (* Multivalued: scanned (fixed shape), or the excluded class (pre-fix shape) -- whatever the pin says *)
+    assert (Hex : existsb (fun d => is_none (col_first r d)) (doc_ids_alive r) = true).
+    { apply existsb_exists. exists d. split; [exact Hd|]. now rewrite Hnone. }
+    destruct scans_multivalued; cbn [negb andb] in Hf.
+    + destruct (has_deletes r); cbn [negb] in Hn; [congruence|discriminate].
+    + congruence.
 Qed.
 
 Lemma has_f171_in rs r : has_f171 rs = false -> In r rs -> has_f171 [r] = false.
 Proof.
-  unfold has_f171. intros H Hr. cbn [existsb]. rewrite orb_false_r.
-  destruct (match cardinality_of (r_vals r) with Multivalued => _ | _ => false end) eqn:E; [|reflexivity].
-  assert (existsb (fun r => match cardinality_of (r_vals r) with
-                            | Multivalued => existsb (fun d => is_none (col_first r d)) (doc_ids_alive r)
-                            | _ => false end) rs = true); [|congruence].
+  unfold has_f171, has_f171_gen. intros H Hr. cbn [existsb]. rewrite orb_false_r.
+  destruct (f171_reader_gen scans_multivalued r) eqn:E; [|reflexivity].
+  assert (existsb (f171_reader_gen scans_multivalued) rs = true); [|congruence].
   apply existsb_exists. exists r. auto.
 Qed.
 
@@ -1086,7 +1088,7 @@ Proof.
     intros k Hk. destruct (Hr k Hk) as (v & -> & Hv). exists v. split; [reflexivity|lia].
   - cbn [windows_all] in W. apply andb_true_iff in W. destruct W as [W1 W2]. apply N.leb_le in W1.
     assert (Hf' : has_f171 (r2 :: rest') = false).
-    { unfold has_f171 in *. cbn [existsb] in Hf. apply orb_false_iff in Hf. tauto. }
+    { unfold has_f171, has_f171_gen in *. cbn [existsb] in Hf. apply orb_false_iff in Hf. tauto. }
     destruct (IH (fun x Hx => Hok x (or_intror Hx)) Hf' W2 (fun x Hx => Hnl x (or_intror Hx))) as [IH1 IH2].
     change (flat_map live_keys (r :: r2 :: rest')) with (live_keys r ++ flat_map live_keys (r2 :: rest')).
     split.
@@ -1120,7 +1122,7 @@ Proof.
     intros k Hk. destruct (Hr k Hk) as (v & -> & Hv). exists v. split; [reflexivity|lia].
   - cbn [windows_all] in W. apply andb_true_iff in W. destruct W as [W1 W2]. apply N.leb_le in W1.
     assert (Hf' : has_f171 (r2 :: rest') = false).
-    { unfold has_f171 in *. cbn [existsb] in Hf. apply orb_false_iff in Hf. tauto. }
+    { unfold has_f171, has_f171_gen in *. cbn [existsb] in Hf. apply orb_false_iff in Hf. tauto. }
     destruct (IH (fun x Hx => Hok x (or_intror Hx)) Hf' W2 (fun x Hx => Hnl x (or_intror Hx))) as [IH1 IH2].
     change (flat_map live_keys (r :: r2 :: rest')) with (live_keys r ++ flat_map live_keys (r2 :: rest')).
     split.
@@ -1296,7 +1298,7 @@ Proof.
   set (rs := merge_readers o ordinals readers).
   assert (P : Permutation rs readers) by apply merge_readers_perm.
   assert (Hok' : forall r, In r rs -> reader_ok o r) by (intros r Hr; apply Hok; eapply Permutation_in; eauto).
-  assert (Hf' : has_f171 rs = false) by (unfold has_f171 in *; now rewrite (existsb_perm _ _ _ P)).
+  assert (Hf' : has_f171 rs = false) by (unfold has_f171, has_f171_gen in *; now rewrite (existsb_perm _ _ _ P)).
   destruct (negb ordinals && is_disjunct_and_sorted o rs) eqn:E.
   - apply andb_true_iff in E. destruct E as [_ E].
     rewrite stack_mapping_keys. now apply stack_sound.
@@ -1310,16 +1312,23 @@ Proof.
   unfold merge_mapping. destruct (negb ordinals && _); [reflexivity|apply kmerge_mapping_perm].
 Qed.
 
-(* F171: the faithful model misplaces the value-less document of a Multivalued source *)
+(* F171 (pre-fix shape `!= Cardinality::Optional`): a Multivalued source with a live value-less document is
+   declared null-free, the value windows are disjoint, so the merge stacks -- and the stacked order is not sorted *)
 Definition f171_readers : list reader :=
   [ {| r_id := 0; r_vals := [[5]]; r_alive := [true] |};
     {| r_id := 1; r_vals := [[]; [10; 11]]; r_alive := [true; true] |} ].
 Lemma f171_witness :
-  has_f171 f171_readers = true /\
+  has_f171_gen false f171_readers = true /\
   forallb (fun r => wf_reader r && reader_sorted Asc r) f171_readers = true /\
-  merged_keys Asc false f171_readers = [Some 5; None; Some 10] /\
-  sorted_keys Asc (merged_keys Asc false f171_readers) = false.
+  windows_all (fun c1 c2 => N.leb (max_value c1) (min_value c2)) f171_readers = true /\
+  existsb (segment_has_live_nulls_gen false) f171_readers = false /\
+  map (addr_key f171_readers) (stack_mapping f171_readers) = [Some 5; None; Some 10] /\
+  sorted_keys Asc (map (addr_key f171_readers) (stack_mapping f171_readers)) = false.
 Proof. vm_compute. repeat split; reflexivity. Qed.
+
+(* with the shape that scans Multivalued columns the class is empty and the same sources are k-way merged *)
+Lemma f171_fixed_shape : has_f171_gen true f171_readers = false /\ existsb (segment_has_live_nulls_gen true) f171_readers = true.
+Proof. vm_compute. split; reflexivity. Qed.
 
 (* ================================================================== order preserving maps to u64 *)
 
